@@ -1,6 +1,7 @@
 import AnonCreds.Model.Wire
 import AnonCreds.Model.Fr
 import AnonCreds.Model.Vb20
+import AnonCreds.Model.Registry
 /-
 Line-protocol driver: one request per line on stdin, one reply per line on stdout.
 Unknown or malformed requests answer `bad-op` (never a default value).
@@ -98,21 +99,82 @@ def vbOp (toks : List String) : Option String :=
     | _, _, _, _, _ => none
   | _ => none
 
-def answer (line : String) : String :=
+/-! ### stateful part: issuer registry (C13, C06) -/
+
+structure RegD where
+  alpha : Fr := 0
+  v0 : String := ""
+  ids : List (String × Fr) := []
+  st : AC.Registry.State Fr := ⟨[], [], 1⟩
+  /-- every handle issued or refreshed so far: (identifier, discrete log w.r.t. V0) -/
+  handles : List (String × Fr) := []
+
+structure DState where
+  reg : RegD := {}
+  stack : List RegD := []
+
+def RegD.h (r : RegD) (id : String) : Fr := (r.ids.lookup id).getD 0
+
+def v0Tok (r : RegD) (x : Fr) : String := "@g1mul(" ++ r.v0 ++ "," ++ frHex x ++ ")"
+
+def regStep (d : DState) (op : AC.Registry.Op) : DState × String :=
+  let r := d.reg
+  let (st', out) := AC.Registry.step (G := Fr) r.h r.alpha r.st op
+  match out with
+  | .handle w =>
+    let id := match op with
+      | .issue id => id
+      | .refresh id => id
+      | _ => ""
+    ({ d with reg := { r with st := st', handles := r.handles ++ [(id, w)] } }, "ok " ++ v0Tok r w)
+  | .done => ({ d with reg := { r with st := st' } }, "ok")
+  | .err => ({ d with reg := { r with st := st' } }, "err")
+
+def regOp (d : DState) (toks : List String) : Option (DState × String) :=
+  match toks with
+  | ["reg.new", α, v0] => (frOf? α).map fun α => ({ d with reg := { alpha := α, v0 := v0 } }, "ok")
+  | ["reg.id", name, hsc] => (frOf? hsc).map fun x => ({ d with reg := { d.reg with ids := (name, x) :: d.reg.ids } }, "ok")
+  | ["reg.push"] => some ({ d with stack := d.reg :: d.stack }, "ok")
+  | ["reg.pop"] =>
+    match d.stack with
+    | r :: rest => some ({ reg := r, stack := rest }, "ok")
+    | [] => none
+  | ["reg.issue", id] => some (regStep d (.issue id))
+  | ["reg.failissue", id] => some (regStep d (.issueFail id))
+  | ["reg.revoke", ids] => (listOf? some ids).map fun ids => regStep d (.revoke ids)
+  | ["reg.refresh", id] => some (regStep d (.refresh id))
+  | ["reg.persist"] => some (regStep d .persist)
+  | ["reg.state"] =>
+    let r := d.reg
+    some (d, s!"E={showList id r.st.elements} A={showList id r.st.active} V={v0Tok r r.st.value}")
+  | ["reg.verify", k] =>
+    match k.toNat? with
+    | some k =>
+      match d.reg.handles[k]? with
+      | some (id, c) => some (d, toString (AC.Vb20.mwVerify (G := Fr) d.reg.alpha (d.reg.h id) c d.reg.st.value))
+      | none => none
+    | none => none
+  | _ => none
+
+def answer (d : DState) (line : String) : DState × String :=
   let toks := (line.trimAscii.toString.splitOn " ").filter (· ≠ "")
   match claimsOp toks with
-  | some r => r
+  | some r => (d, r)
   | none =>
   match vbOp toks with
+  | some r => (d, r)
+  | none =>
+  match regOp d toks with
   | some r => r
-  | none => "bad-op"
+  | none => (d, "bad-op")
 
-partial def loop (h : IO.FS.Stream) (out : IO.FS.Stream) : IO Unit := do
+partial def loop (h : IO.FS.Stream) (out : IO.FS.Stream) (d : DState) : IO Unit := do
   let line ← h.getLine
   if line.isEmpty then return ()
-  out.putStrLn (answer line)
-  loop h out
+  let (d', r) := answer d line
+  out.putStrLn r
+  loop h out d'
 
 def main : IO Unit := do
   let out ← IO.getStdout
-  loop (← IO.getStdin) out
+  loop (← IO.getStdin) out {}
